@@ -52,7 +52,7 @@ FINISH = dict(rule="histories = complete TLC enumeration (BFS over the history v
                    "compared with the model; wire tier: every argument tuple enumerated by TLC for every method row")
 
 BASE = dict(Keys='{"k1","k2"}', Mem='<<"a","b">>', R=40, MaxList=4, VS='{"a","1"}', SecS="{2}", NS="{2}",
-            IdxS="{-1,0,1}", ScoreS="{-1,0,2}", PageS="{0,1}", SizeS="{0,1,2}", MaxAdv=1, KVOnly=False)
+            IdxS="{-1,0,1}", ScoreS="{-1,0,2}", PageS="{0,1}", SizeS="{0,1,2}", MaxAdv=1, KVOnly=False, PipeLens="{2,3}")
 
 
 def consts(**kw):
@@ -66,7 +66,7 @@ def consts(**kw):
 def mc(ctx):
     # one key, every family: all type clashes, expiry of every type; two keys for the multi-key set commands
     for name, kw, bound in (
-            ("RedisKV-mc1", dict(fams="str,key,hash,list,set,zset", Keys='{"k1"}', VS='{"a","1"}', NS="{2}", IdxS="{-1,0,1}",
+            ("RedisKV-mc1", dict(fams="str,key,hash,list,set,zset,pipe", Keys='{"k1"}', VS='{"a","1"}', NS="{2}", IdxS="{-1,0,1}",
                                  ScoreS="{0,1}", PageS="{0,1}", SizeS="{0,1}", MaxList=3, R=4, SecS="{1,2}", MaxAdv=1), "clock <= 3"),
             ("RedisKV-mc2", dict(fams="str,key,set", Keys='{"k1","k2"}', VS='{"1"}', NS="{2}", R=4, SecS="{1}", MaxAdv=1), "clock <= 2")):
         K = consts(**kw)
@@ -75,9 +75,10 @@ def mc(ctx):
         ctx.tlc("RedisKV", cfg, constants=K, defs=dict(Bound_=bound), name=name, timeout=900, workers=W, heap="4g")
 
 
-def gen(ctx, name, maxlen, simulate=None, simw=1, **kw):
+def gen(ctx, name, maxlen, simulate=None, simw=1, ctxfrom=0, **kw):
     K = consts(**kw)
     K["MaxLen"] = maxlen
+    K["CtxFrom"] = ctxfrom
     cfg = core.render_cfg(spec="GSpec", constants=K, invariants=["Emit"])
     r = ctx.tlc("RedisKVGen", cfg, constants=K, name=name, simulate=simulate, depth=maxlen + 2, timeout=1200,
                 workers=(simw if simulate else W), heap="4g")
@@ -89,7 +90,7 @@ def run(ctx):
     binp = ctx.go_build(PKG, OVERLAY, name="c12drv")
     ctx.assumptions += ["miniredis 2.23.1 is the Redis environment", "breaker coin forced to never-reject in transparency runs (H2)"]
     one = '{"k1"}'
-    mixkw = dict(fams="str,key,hash,list,set,zset", Keys='{"k1","k2","k3"}', Mem='<<"a","b","c">>', VS='{"a","1","-2"}',
+    mixkw = dict(fams="str,key,hash,list,set,zset,pipe", PipeLens="{2,3,4}", Keys='{"k1","k2","k3"}', Mem='<<"a","b","c">>', VS='{"a","1","-2"}',
                  SecS="{1,3}", NS="{-3,2}", IdxS="{-2,0,1}", ScoreS="{-1,0,2}", PageS="{0,1}", SizeS="{0,2}", MaxAdv=2)
     if ctx.quick:
         plans = [("str2", 2, dict(fams="str,key")),
@@ -100,7 +101,13 @@ def run(ctx):
                  ("list3", 3, dict(fams="list", Keys=one, VS='{"a"}', IdxS="{-1,1}")),
                  ("set2", 2, dict(fams="set")),
                  ("set3", 3, dict(fams="set", Keys=one)),
-                 ("zset2", 2, dict(fams="zset", ScoreS="{0,2}", IdxS="{-1,0}", SizeS="{0,1}"))]
+                 ("zset2", 2, dict(fams="zset", ScoreS="{0,2}", IdxS="{-1,0}", SizeS="{0,1}")),
+                 # pipelines of 3 queued commands (reads of absent keys, type clashes, several failing commands)
+                 ("pipe3", 3, dict(fams="pipe", VS='{"1"}', PipeLens="{3}")),
+                 # context dimension: one ordinary command, then any command in its Ctx form with a dead context
+                 ("ctxA", 2, dict(fams="str,key,hash", ctxfrom=2, VS='{"1"}')),
+                 ("ctxB", 2, dict(fams="list,set", ctxfrom=2, VS='{"a"}', IdxS="{0}")),
+                 ("ctxZ", 2, dict(fams="zset", Keys=one, ctxfrom=2, ScoreS="{0,2}", IdxS="{0}", SizeS="{0,1}", PageS="{0}"))]
         qkw = dict(mixkw, Keys='{"k1","k2"}', IdxS="{-2,1}", ScoreS="{-1,2}", SizeS="{1}")
         sims = [("mix", 40, 12, qkw),
                 ("mixkv", 40, 12, dict(qkw, KVOnly=True))]
@@ -116,7 +123,12 @@ def run(ctx):
                  ("set2", 2, dict(fams="set,key", Keys='{"k1","k2","k3"}', Mem='<<"a","b","c">>')),
                  ("set3", 3, dict(fams="set")),
                  ("zset2", 2, dict(fams="zset", ScoreS="{-1,0,2}", IdxS="{-2,-1,0,1}", Mem='<<"a","b","c">>', SizeS="{0,1}")),
-                 ("zset3", 3, dict(fams="zset", Keys=one, ScoreS="{0,2}", IdxS="{-1}", PageS="{1}", SizeS="{1}", KVOnly=True))]
+                 ("zset3", 3, dict(fams="zset", Keys=one, ScoreS="{0,2}", IdxS="{-1}", PageS="{1}", SizeS="{1}", KVOnly=True)),
+                 ("pipe3", 3, dict(fams="pipe", PipeLens="{3}")),
+                 ("pipe4", 4, dict(fams="pipe", Keys=one, PipeLens="{2,4}")),
+                 ("ctxA", 2, dict(fams="str,key,hash", ctxfrom=2)),
+                 ("ctxB", 2, dict(fams="list,set", ctxfrom=2)),
+                 ("ctxZ", 2, dict(fams="zset", ctxfrom=2, ScoreS="{0,2}", IdxS="{-1,0}", SizeS="{0,1}"))]
         sims = [("mix", 40, 150, dict(mixkw, IdxS="{-3,-1,0,1,2}", ScoreS="{-2,0,1,2}", MaxList=5)),
                 ("mixkv", 40, 150, dict(mixkw, IdxS="{-3,-1,0,1,2}", ScoreS="{-2,0,1,2}", MaxList=5, KVOnly=True)),
                 ("mix80", 80, 60, dict(mixkw)), ]
